@@ -45,6 +45,9 @@ fn strip_prog(p: &Prog) -> Prog {
 }
 
 pub fn cmd_codegen_all(seed: u64, n: usize, out: &mut dyn Write, dirs: &[String]) {
+    // `--rv-only` as first extra argument: only the RISC-V result is emitted (shape of `codegen-rv`)
+    let rv_only = dirs.first().map(|d| d == "--rv-only").unwrap_or(false);
+    let dirs = if rv_only { &dirs[1..] } else { dirs };
     let mut progs: Vec<(String, axcut::syntax::Prog)> = if dirs.len() == 1 && dirs[0] == "-" { Vec::new() } else { linear_programs(dirs) };
     let mut rng = crate::rng::Rng::new(seed);
     let mut rejected = 0usize;
@@ -87,6 +90,7 @@ pub fn cmd_codegen_all(seed: u64, n: usize, out: &mut dyn Write, dirs: &[String]
             let text = axcut2rv64::into_routine::into_rv64_routine(a);
             format!("({} {} {})", is, n, crate::sexp::quote(&text))
         });
+        if rv_only { writeln!(out, "(case {k} {input} {rv})").unwrap(); continue; }
         let p2 = prog.clone();
         let x86 = catch(move || {
             let a = compile::<axcut2x86_64::Backend, _, _, _>(p2);
